@@ -494,8 +494,22 @@ func runC19(args []string) {
 	cmd.Env = append(os.Environ(), "GORACE=log_path="+raceLog+" halt_on_error=0 exitcode=0")
 	var stderr bytes.Buffer
 	cmd.Stderr = &stderr
+	fatalRace := ""
 	if err := cmd.Run(); err != nil {
-		fatal("concurrent phase crashed: %v\n%s", err, stderr.String())
+		// The Go runtime itself detects unsynchronised access to one map ("fatal error: concurrent map
+		// writes" / "... read and map write" / "... iteration and map write") and kills the process:
+		// that is a data race observed in the concurrent phase, reported like a race-detector report.
+		// Any other death of the child is a failure of the driver.
+		se := stderr.String()
+		i := strings.Index(se, "fatal error: concurrent map")
+		if i < 0 {
+			fatal("concurrent phase crashed: %v\n%s", err, se)
+		}
+		lines := strings.Split(se[i:], "\n")
+		if len(lines) > 24 {
+			lines = lines[:24]
+		}
+		fatalRace = strings.Join(lines, " | ")
 	}
 	// merge: sequential events, concurrent events, race reports
 	f, err := os.OpenFile(out, os.O_APPEND|os.O_WRONLY, 0o644)
@@ -503,9 +517,15 @@ func runC19(args []string) {
 		fatal("%v", err)
 	}
 	cb, _ := os.ReadFile(childOut)
+	cb = cb[:bytes.LastIndexByte(cb, '\n')+1] // (a child that died may have left half a line)
 	f.Write(cb)
 	nconc := bytes.Count(cb, []byte("\n"))
 	races := 0
+	if fatalRace != "" {
+		races++
+		f.Write(asciiJSON(obj{"kind": "race", "report": fatalRace}))
+		f.Write([]byte("\n"))
+	}
 	logs, _ := filepath.Glob(raceLog + "*")
 	for _, lf := range logs {
 		lb, _ := os.ReadFile(lf)
